@@ -313,6 +313,28 @@ def scale_oplists(pid, seed):
                     {"k": "remap_uri", "i": 1, "m": m130[:128]},
                     {"k": "rewire", "i": 1, "m": [[f"p{i:03d}", f"https://rewired.example/{i:03d}/"] for i in range(40)] + [[f"q{i:03d}", f"https://unknown.example/{i:03d}/"] for i in range(95)]},
                     {"k": "rewire", "i": "last", "m": [["p001", "https://rewired.example/000/"], ["p000", "https://again.example/"]]}])
+    if pid in QUERY_PROPS or pid in ("C05", "C09", "C10"):
+        # minimal merges (wave 10, C01-w10-M1): a merging add / a chained record that contributes exactly ONE new name -- the
+        # empty string or an ordinary one, on either side -- to a record with or without synonyms on that side
+        for side in ("ps", "us"):
+            for name in ("", "m9" if side == "ps" else "http://m.example/9/"):
+                for had in (False, True):
+                    for delim in (":", "::"):
+                        base = {"p": "mm", "u": "http://mm.example/a/", "ps": [], "us": [], "pat": None}
+                        if had:
+                            base[side] = ["old0" if side == "ps" else "http://old.example/0/"]
+                        inc = dict(base, **{side: [name]})
+                        ex = ["mm" + delim + "1", name + delim + "1", "http://mm.example/a/1", name + "1", "zzz", "zzz" + delim + "1", "http://zzz.example/1", delim + "1", "1"]
+                        if pid == "C09":
+                            out.append([{"k": "new", "recs": [base], "delim": delim, "extra": ex}, {"k": "new", "recs": [inc], "delim": delim, "extra": ex},
+                                        {"k": "chain", "is": [1, 2], "cs": True, "extra": ex}, {"k": "chain", "is": [2, 1], "cs": False, "extra": ex}])
+                        else:
+                            ops = [{"k": "new", "recs": [base], "delim": delim, "extra": ex},
+                                   {"k": "add", "i": 1, "rec": inc, "cs": True, "mg": True, "via": "record" if had else "prefix", "extra": ex},
+                                   {"k": "probe", "is": [1], "extra": ex}]
+                            if pid == "C05":
+                                ops.append({"k": "fresh", "i": 1})
+                            out.append(ops)
     return out
 
 
@@ -912,7 +934,7 @@ def system_part(pid, tier, seed):
     return {"lines": lines, "violations": violations, "known": known, "coverage": cov}
 
 
-def hook_part(seed):
+def hook_part(seed, tier="quick", model=False):
     """C07 on subclasses of Converter that override the documented `standardize_identifier` hook (the operational specification
     models the exact class only): the answer-to-answer laws of C07 are evaluated on logged answers by spec/TraceHook.tla."""
     import hashlib
@@ -932,34 +954,82 @@ def hook_part(seed):
     class Upper(curies.Converter):           # rewriting and rejecting at once
         def standardize_identifier(self, standard_prefix, identifier):
             return identifier.upper() if identifier else None
+    class GoOnly(curies.Converter):          # depends on the (canonical) prefix: GO identifiers are seven digits, the others anything
+        def standardize_identifier(self, standard_prefix, identifier):
+            if standard_prefix == "GO":
+                return identifier.zfill(7) if identifier.isdigit() and len(identifier) <= 7 else None
+            return identifier
+
+    class Weird(curies.Converter):           # answers that look like something else: "", an identifier containing the delimiter, a URI
+        def standardize_identifier(self, standard_prefix, identifier):
+            if identifier == "1":
+                return ""
+            if identifier == "nope":
+                return "x" + self.delimiter + "y"
+            if identifier == "":
+                return None
+            return "http://purl.obolibrary.org/obo/GO_" + identifier if identifier == "a b" else identifier
     recs = [{"p": "GO", "u": "http://purl.obolibrary.org/obo/GO_", "ps": ["go"], "us": ["https://identifiers.org/GO:"], "pat": None},
             {"p": "OBO", "u": "http://purl.obolibrary.org/obo/", "ps": [], "us": [], "pat": None},
             {"p": "", "u": "http://default.example/", "ps": ["dflt"], "us": [], "pat": None}]
-    calls, metas = [], []
-    for cls in (Digits, Banana, Upper):
+    calls, metas, convs = [], [], []
+    classes = {cls.__name__: cls for cls in (Digits, Banana, Upper, GoOnly, Weird)}
+    for cls in classes.values():
         for delim in (":", "/", "::"):
-            c = cls([impl.mk_record(r) for r in recs], delimiter=delim)
-            xs = []
-            for p in ("GO", "go", "OBO", "", "dflt", "nope"):
-                for ident in ("1", "0032571", "nope", "", "GO" + delim + "1", "a b", "x" + delim + "y"):
-                    xs.append(p + delim + ident)
-            for u in ("http://purl.obolibrary.org/obo/GO_", "https://identifiers.org/GO:", "http://purl.obolibrary.org/obo/", "http://default.example/", "http://unknown.example/"):
-                for ident in ("1", "nope", "", "GO_1"):
-                    xs.append(u + ident)
-            xs += ["", "GO", "nope", delim, "GO" + delim]
-            for x in dict.fromkeys(xs):
-                a = {}
-                for key, f in (("is_uri", lambda: c.is_uri(x)), ("is_curie", lambda: c.is_curie(x)), ("compress", lambda: c.compress(x)),
-                               ("compress@s", lambda: c.compress(x, strict=True)), ("compress_strict", lambda: c.compress_strict(x)),
-                               ("parse_uri", lambda: c.parse_uri(x, return_none=True)), ("expand", lambda: c.expand(x)),
-                               ("expand@s", lambda: c.expand(x, strict=True)), ("expand_strict", lambda: c.expand_strict(x)),
-                               ("parse_curie", lambda: c.parse_curie(x)), ("parse", lambda: c.parse(x, strict=False)),
-                               ("compress_or_standardize", lambda: c.compress_or_standardize(x))):
-                    a[key] = impl.call_out(I, lambda *_: f())
-                calls.append({"x": I(x), "delim": I(delim), "a": a})
-                metas.append({"hook": cls.__name__, "delimiter": delim, "x": x, "answers": {k: v for k, v in a.items()}})
+            for how in ("constructor", "incremental"):
+                if how == "constructor":
+                    c = cls([impl.mk_record(r) for r in recs], delimiter=delim)
+                else:
+                    # the same converter grown step by step ON THE SUBCLASS: bare pairs first, synonyms merged in afterwards
+                    c = cls([], delimiter=delim)
+                    for r in recs:
+                        c.add_prefix(r["p"], r["u"])
+                    for r in recs:
+                        if r["ps"] or r["us"]:
+                            c.add_prefix(r["p"], r["u"], prefix_synonyms=r["ps"], uri_prefix_synonyms=r["us"], merge=True)
+                convs.append({"delim": I(delim), "recs": [impl.proj_record(I, r) for r in c.records]})
+                ci = len(convs)
+                xs = []
+                for p in ("GO", "go", "OBO", "", "dflt", "nope"):
+                    for ident in ("1", "0032571", "nope", "", "GO" + delim + "1", "a b", "x" + delim + "y"):
+                        xs.append(p + delim + ident)
+                for u in ("http://purl.obolibrary.org/obo/GO_", "https://identifiers.org/GO:", "http://purl.obolibrary.org/obo/", "http://default.example/", "http://unknown.example/"):
+                    for ident in ("1", "nope", "", "GO_1"):
+                        xs.append(u + ident)
+                xs += ["", "GO", "nope", delim, "GO" + delim]
+                if how == "incremental":
+                    xs = xs[::3]
+                canon = [r.prefix for r in c.records]
+                for x in dict.fromkeys(xs):
+                    a = {}
+                    for key, f in (("is_uri", lambda: c.is_uri(x)), ("is_curie", lambda: c.is_curie(x)), ("compress", lambda: c.compress(x)),
+                                   ("compress@s", lambda: c.compress(x, strict=True)), ("compress_strict", lambda: c.compress_strict(x)),
+                                   ("parse_uri", lambda: c.parse_uri(x, return_none=True)), ("expand", lambda: c.expand(x)),
+                                   ("expand@s", lambda: c.expand(x, strict=True)), ("expand@p", lambda: c.expand(x, passthrough=True)),
+                                   ("expand_strict", lambda: c.expand_strict(x)),
+                                   ("parse_curie", lambda: c.parse_curie(x)), ("parse_curie@s", lambda: c.parse_curie(x, strict=True)),
+                                   ("parse", lambda: c.parse(x, strict=False)), ("parse@s", lambda: c.parse(x, strict=True)),
+                                   ("standardize_curie", lambda: c.standardize_curie(x)), ("standardize_curie@s", lambda: c.standardize_curie(x, strict=True)),
+                                   ("standardize_curie@p", lambda: c.standardize_curie(x, passthrough=True)),
+                                   ("standardize_uri", lambda: c.standardize_uri(x)),
+                                   ("expand_all", lambda: c.expand_all(x)), ("expand_all@s", lambda: c.expand_all(x, strict=True)),
+                                   ("compress_or_standardize", lambda: c.compress_or_standardize(x)),
+                                   ("compress_or_standardize@p", lambda: c.compress_or_standardize(x, passthrough=True)),
+                                   ("expand_or_standardize", lambda: c.expand_or_standardize(x)),
+                                   ("expand_or_standardize@s", lambda: c.expand_or_standardize(x, strict=True))):
+                        a[key] = impl.call_out(I, lambda *_: f())
+                    # the graph of the hook, observed by asking the subclass's method directly: every canonical prefix x every
+                    # suffix of x after an occurrence of the delimiter
+                    h, pos = [], x.find(delim)
+                    while pos >= 0:
+                        ident = x[pos + len(delim):]
+                        for p in canon:
+                            h.append([I(p), I(ident), impl.call_out(I, lambda *_: c.standardize_identifier(p, ident))])
+                        pos = x.find(delim, pos + 1)
+                    calls.append({"ci": ci, "x": I(x), "delim": I(delim), "a": a, "h": h})
+                    metas.append({"hook": cls.__name__, "delimiter": delim, "built": how, "x": x, "answers": {k: v for k, v in a.items()}})
     groups = [calls[k:k + 100] for k in range(0, len(calls), 100)]
-    fails, st = tlc.validate_calls({"strs": I.table(), "groups": groups}, spec="TraceHook.tla", cfg="TraceHook.cfg", timeout=600)
+    fails, st = tlc.validate_calls({"strs": I.table(), "fold": I.fold(), "convs": convs, "groups": groups}, spec="TraceHook.tla", cfg="TraceHook.cfg", timeout=600)
     lines, violations = [], 0
     for g, k, clause in fails:
         violations += 1
@@ -972,10 +1042,42 @@ def hook_part(seed):
             with open(path, "w") as f:
                 json.dump(body, f, indent=1, ensure_ascii=False)
             lines.append(f"VIOLATION property=C07 replay={path}   # clause {'/'.join(clause)} on a Converter subclass overriding standardize_identifier ({m['hook']}), input {m['x']!r}")
+    mc = hook_model(tier) if model else None
     return {"lines": lines, "violations": violations,
-            "coverage": {"subclasses": ["Digits (rejects)", "Banana (rewrites)", "Upper (both)"], "delimiters": [":", "/", "::"], "rows": len(calls), "call_validation": st,
+            "coverage": {"subclasses": ["Digits (rejects)", "Banana (rewrites)", "Upper (both)", "GoOnly (depends on the canonical prefix)",
+                                        "Weird (answers '', an identifier containing the delimiter, a URI)"],
+                         "delimiters": [":", "/", "::"], "built": ["constructor", "incrementally on the subclass (add_prefix, merge)"],
+                         "rows": len(calls), "answers": sum(len(c["a"]) for c in calls), "hook_graph_entries": sum(len(c["h"]) for c in calls),
+                         "call_validation": st, "model": mc,
+                         "clauses": "ans.hook.<method@mode>: the logged answer is Hooked!AnsH(converter from the logged records, observed graph of the hook); "
+                                    "mon.C07.hook.declarative: Hooked!P_C07H with the logged answers as oracle; mon.C07.hook.<law>: answer-to-answer laws on raw logged values",
                          "laws": "is_uri <=> compress / parse_uri give a value; is_curie <=> expand gives a value; parse = parse_uri | parse_curie | nothing; "
                                  "compress_or_standardize = CURIE of parse; compress_strict / expand_strict = the strict=True calls"}}
+
+
+HOOK_SIZES = {"quick": {"MaxRecs": 1, "ProbeLen": 3, "IdLen": 1}, "thorough": {"MaxRecs": 2, "ProbeLen": 3, "IdLen": 2}}
+
+
+def hook_model(tier):
+    """TLC on spec/mc/MC_Hook.tla: the declarative C07 for hooked converters (P_C07H) against the operational hooked operators, for every
+    converter x hook graph x probe string of the bound; the identity hook gives Conv's operators back; witnesses must be reachable."""
+    import checks_other as co
+    from concurrent.futures import ThreadPoolExecutor
+    consts = dict(HOOK_SIZES[tier], FoldMap="<-Fold")
+    tiny = dict(HOOK_SIZES["quick"], FoldMap="<-Fold")
+    wit = ["Never_Rejected", "Never_Rewritten", "Never_UriAndCurie"]
+    with ThreadPoolExecutor(4) as ex:
+        main = ex.submit(co.run_model, "mc/MC_Hook.tla", "MCSpec", consts, ["Inv_C07H", "Inv_Base", "Inv_SynonymKey"], 3000 if tier == "thorough" else 900, dump=False)
+        ws = [ex.submit(co.run_model, "mc/MC_Hook.tla", "MCSpec", tiny, [w], 600, dump=False) for w in wit]
+        st, _, _ = main.result()
+        wres = [f.result()[0] for f in ws]
+    if st["violated"]:
+        raise MachineryError(f"MC_Hook: {st['violated']} is violated: the hooked specification contradicts its own declarative statement")
+    for w, r in zip(wit, wres):
+        if r["violated"] != w:
+            raise MachineryError(f"MC_Hook: witness {w} is not reachable (vacuity)")
+    st["witnesses_reached"] = wit
+    return st
 
 
 def check(pid, tier, seed):
@@ -992,6 +1094,9 @@ def check(pid, tier, seed):
     from concurrent.futures import ThreadPoolExecutor
     apa_pool = ThreadPoolExecutor(1)
     apa_future = apa_pool.submit(apalache, pid, tier) if pid in APALACHE else None
+    # C07: the bounded model of hooked converters (spec/mc/MC_Hook.tla) runs next to everything else
+    hook_pool = ThreadPoolExecutor(1)
+    hook_future = hook_pool.submit(hook_model, tier) if pid == "C07" else None
     for entry in world.PLAN[pid]:
         model, invs, extra = entry[:3]
         only = entry[3] if len(entry) > 3 else None
@@ -1083,7 +1188,9 @@ def check(pid, tier, seed):
                     lines.append(f"VIOLATION property={pid} replay={path}   # clause {key} in trace {tid} recorded from the repository's own tests")
     hook = None
     if pid == "C07":
-        hook = hook_part(seed)
+        hook = hook_part(seed, tier)
+        hook["coverage"]["model"] = hook_future.result()
+        models.append(hook["coverage"]["model"])
         lines += hook["lines"]
         violations += hook["violations"]
     apa = apa_future.result() if apa_future else None
